@@ -421,7 +421,7 @@ class C08(core.Check):
         'define-inside-block-that-tests-it', 'effect:define', 'effect:label', 'effect:constant', 'effect:create_memzone',
         'effect:mute', 'effect:include', 'effect:origin', 'effect:zone-switch', 'starts-in-named-zone', 'effect:unmute-inside-branch-while-muted', 'if:bare-literal', 'if:bare-symbol', 'if:text-comparison', 'if:op==', 'if:op!=',
         'if:op>', 'if:op>=', 'if:op<', 'if:op<=', 'ctx:unsel:nested-in-unselected', 'ctx:unsel:earlier-branch-taken',
-        'ctx:unsel:condition-false', 'numeric-vs-text-disagree', 'stray:else', 'stray:elif', 'stray:endif', 'stray:in-included-file',
+        'ctx:unsel:condition-false', 'numeric-vs-text-disagree', 'stray:else', 'stray:elif', 'stray:endif', 'stray:in-included-file', 'same-condition-text-before-and-after-define',
         'source:cli', 'source:isa']}
 
     def finish(self, g, rng, extra_tags=()):
@@ -526,7 +526,25 @@ class C08(core.Check):
             yield {'runs': [{'files': {fn0: text0, 'p.asm': main_src, 's.asm': inc_src},
                              'argv': ['compile', '-c', fn0, 'p.asm', '-o', 'out.bin'], 'probes': ['steps', 'cond'], 'step_limit': 500000}],
                    'meta': {'model': {'kind': 'REJECT', 'why': 'stray #' + kind + ' in an included file'}, 'markers': {}},
-                   'tags': ['stray:' + kind, 'stray:in-included-file', 'expect:REJECT']}
+                   'tags': ['stray:' + kind, 'stray:in-included-file', 'same-condition-text-before-and-after-define', 'expect:REJECT']}
+        # the same condition text reached twice: first while its symbol is not defined yet (both branches of that chain
+        # emit the same byte, because what an undefined symbol compares to is not fixed), then after the #define
+        k = 0
+        for cond_txt, val, truth in (('SYMQ == 2', '2', True), ('SYMQ == 2', '3', False), ('SYMQ != 2', '2', False), ('SYMQ >= 5', '7', True),
+                                     ('SYMQ', '1', True), ('SYMQ', '0', False), ('SYMQ < 10', '$0A', False), ('SYMQ == fast', 'fast', True),
+                                     ('2 == SYMQ', '2', True), ('SYMQ <= 8', '0x08', True)):
+            for first_kind in ('if', 'elif'):
+                for second_kind in ('if', 'elif'):
+                    first = [f'#if {cond_txt}'] if first_kind == 'if' else ['#if 0', '.byte 7', f'#elif {cond_txt}']
+                    second = [f'#if {cond_txt}'] if second_kind == 'if' else ['#if 0', '.byte 9', f'#elif {cond_txt}']
+                    src = first + ['.byte 7', '#else', '.byte 7', '#endif', f'#define SYMQ {val}'] + second + \
+                        ['.byte 3', '#else', '.byte 4', '#endif', '.byte 5']
+                    img = bytes([7, 3 if truth else 4, 5]).hex()
+                    k += 1
+                    yield {'runs': [{'files': {fn0: text0, 'p.asm': '\n'.join(src) + '\n'},
+                                     'argv': ['compile', '-c', fn0, 'p.asm', '-o', 'out.bin'], 'probes': ['steps', 'cond'], 'step_limit': 500000}],
+                           'meta': {'model': {'kind': 'ACCEPT', 'image': img, 'undefined_first': True}, 'markers': {}},
+                           'tags': ['same-condition-text-before-and-after-define', 'expect:ACCEPT']}
         if tier == 'thorough':
             yield from self.sweep()
 
@@ -588,6 +606,8 @@ class C08(core.Check):
                 return [core.violated(f'must-reject-accepted/{cls}', {'why': m.get('why'), 'src': src}, buckets=tags, nt=nt)]
             return [core.held(buckets=tags, nt=nt)]
         img = (o.get('files') or {}).get('out.bin')
+        if m.get('undefined_first') and o.get('exit') != 0:
+            return [core.dont_care('a condition over a symbol that is not defined yet may be refused')]
         if o.get('exit') != 0 or img is None:
             err = (o.get('stderr') or '')[-400:]
             cls = 'rejected'
